@@ -98,33 +98,46 @@ def central (k : Nat) (xs : List Rat) : Rat :=
 
 /-! ### grouping -/
 
-/-- `GroupedStats`: insertion-ordered groups, each with one accumulator per aggregated column -/
-abbrev Groups := List (List SV × List St)
+/-- `GroupedStats`: insertion-ordered groups keyed by `κ`, each with one accumulator per aggregated column -/
+abbrev GroupsK (κ : Type) := List (κ × List St)
 
-def updGroup (g : Groups) (key : List SV) (f : List St → List St) (fresh : List St) : Groups :=
+/-- plain `groupBy`: the key is the tuple of the grouping columns' values (null is a value) -/
+abbrev Groups := GroupsK (List SV)
+/-- rollup / cube: `none` is the GROUPED marker of a rolled-up column (distinct from a null key value) -/
+abbrev SubGroups := GroupsK (List (Option SV))
+
+section Keyed
+variable {κ : Type} [BEq κ]
+
+def updGroup (g : GroupsK κ) (key : κ) (f : List St → List St) (fresh : List St) : GroupsK κ :=
   if g.any (·.1 == key) then g.map fun e => if e.1 == key then (e.1, f e.2) else e
   else g ++ [(key, f fresh)]
 
-/-- `GroupedStats.merge(row)`: the group of the row's key tuple (null is a key value), every aggregated
-column stepped with its value -/
-def addRow (ncols : Nat) (g : Groups) (key : List SV) (vals : List SV) : Groups :=
+/-- one row counted in the group `key`: every aggregated column stepped with its value -/
+def addRow (ncols : Nat) (g : GroupsK κ) (key : κ) (vals : List SV) : GroupsK κ :=
   updGroup g key (fun sts => (sts.zip vals).map fun (s, v) => s.step v) (List.replicate ncols St.init)
 
 /-- `GroupedStats.mergeStats(other)` -/
-def mergeGroups (a b : Groups) : Groups :=
+def mergeGroups (a b : GroupsK κ) : GroupsK κ :=
   b.foldl (fun acc e =>
     if acc.any (·.1 == e.1) then acc.map fun x => if x.1 == e.1 then (x.1, (x.2.zip e.2).map fun (s, t) => s.merge t) else x
     else acc ++ [e]) a
 
-/-- a table as partitions of (key tuple, aggregated values) rows -/
-def aggregate (ncols : Nat) (parts : List (List (List SV × List SV))) : Groups :=
+/-- a table as partitions of (group key, aggregated values) rows -/
+def aggregate (ncols : Nat) (parts : List (List (κ × List SV))) : GroupsK κ :=
   (parts.map fun p => p.foldl (fun g r => addRow ncols g r.1 r.2) []).foldl mergeGroups []
 
 /-- SPEC: group the flattened rows directly -/
-def aggregateSpec (ncols : Nat) (rows : List (List SV × List SV)) : Groups :=
+def aggregateSpec (ncols : Nat) (rows : List (κ × List SV)) : GroupsK κ :=
   rows.foldl (fun g r => addRow ncols g r.1 r.2) []
 
-/-- rollup / cube: the subtotal keys a group contributes to (`none` = the GROUPED marker) -/
+end Keyed
+
+/-! ### rollup / cube -/
+
+/-- the groups a row with grouping key `key` is counted in (`get_subtotal_keys`) -/
+def groupByKeys (key : List SV) : List (List (Option SV)) := [key.map some]
+
 def rollupKeys (key : List SV) : List (List (Option SV)) :=
   (List.range (key.length + 1)).map fun i => (key.take i).map some ++ List.replicate (key.length - i) none
 
@@ -132,14 +145,19 @@ def cubeKeys : List SV → List (List (Option SV))
   | [] => [[]]
   | k :: ks => (cubeKeys ks).flatMap fun r => [none :: r, some k :: r]
 
-abbrev SubGroups := List (List (Option SV) × List St)
+/-- (repaired) `GroupedStats.merge(row)`: the row is counted, in row order, in its own group and in each of its
+subtotals — i.e. the table is aggregated after every row has been copied under each of its keys -/
+def expand (keysOf : List SV → List (List (Option SV))) (rows : List (List SV × List SV)) :
+    List (List (Option SV) × List SV) :=
+  rows.flatMap fun r => (keysOf r.1).map fun sk => (sk, r.2)
 
-/-- `add_subtotals`: every group is merged into each of its subtotal keys -/
-def addSubtotals (keysOf : List SV → List (List (Option SV))) (g : Groups) : SubGroups :=
-  g.foldl (fun acc e =>
-    (keysOf e.1).foldl (fun acc sk =>
-      if acc.any (·.1 == sk) then acc.map fun x => if x.1 == sk then (x.1, (x.2.zip e.2).map fun (s, t) => s.merge t) else x
-      else acc ++ [(sk, e.2)]) acc) []
+def aggregateSub (keysOf : List SV → List (List (Option SV))) (ncols : Nat) (parts : List (List (List SV × List SV))) : SubGroups :=
+  aggregate ncols (parts.map (expand keysOf))
+
+/-- SPEC of a subtotal key: the rows it stands for are those whose key agrees with it on every column that is not
+rolled up ("grouping by the corresponding key subset") -/
+def matchesKey (sk : List (Option SV)) (key : List SV) : Bool :=
+  sk.length == key.length && (sk.zip key).all fun (o, v) => match o with | none => true | some w => w == v
 
 /-! ### pivot -/
 
@@ -148,15 +166,24 @@ steps only the block of its own pivot value (`if pivot_value in self.pivot_value
 def stepCells (pvs : List SV) (pv : SV) (sts : List St) (vals : List SV) : List St :=
   (sts.zip (pvs.flatMap fun p => vals.map fun v => (p, v))).map fun (s, (p, v)) => if p == pv then s.step v else s
 
-def addRowPivot (ncols : Nat) (pvs : List SV) (g : Groups) (key : List SV) (pv : SV) (vals : List SV) : Groups :=
+section KeyedPivot
+variable {κ : Type} [BEq κ]
+
+def addRowPivot (ncols : Nat) (pvs : List SV) (g : GroupsK κ) (key : κ) (pv : SV) (vals : List SV) : GroupsK κ :=
   updGroup g key (fun sts => stepCells pvs pv sts vals) (List.replicate (pvs.length * ncols) St.init)
 
-/-- rows are (key tuple, pivot value, aggregated values) -/
-def aggregatePivot (ncols : Nat) (pvs : List SV) (parts : List (List (List SV × SV × List SV))) : Groups :=
+/-- rows are (group key, pivot value, aggregated values) -/
+def aggregatePivot (ncols : Nat) (pvs : List SV) (parts : List (List (κ × SV × List SV))) : GroupsK κ :=
   (parts.map fun p => p.foldl (fun g r => addRowPivot ncols pvs g r.1 r.2.1 r.2.2) []).foldl mergeGroups []
 
-def aggregatePivotSpec (ncols : Nat) (pvs : List SV) (rows : List (List SV × SV × List SV)) : Groups :=
+def aggregatePivotSpec (ncols : Nat) (pvs : List SV) (rows : List (κ × SV × List SV)) : GroupsK κ :=
   rows.foldl (fun g r => addRowPivot ncols pvs g r.1 r.2.1 r.2.2) []
+
+end KeyedPivot
+
+def expandPivot (keysOf : List SV → List (List (Option SV))) (rows : List (List SV × SV × List SV)) :
+    List (List (Option SV) × SV × List SV) :=
+  rows.flatMap fun r => (keysOf r.1).map fun sk => (sk, r.2.1, r.2.2)
 
 /-- `sorted(collect_set(pivot_col))` over string values: the distinct non-null values in ascending order -/
 def insertSorted (v : SV) : List SV → List SV
